@@ -477,11 +477,17 @@ func tlexer(p *load.Program, s *oblig.Set) {
 	for i := 0; i < st.NumFields(); i++ {
 		fld[st.Field(i).Name()] = i
 	}
-	for _, n := range []string{"stack", "pointers", "readp", "writep", "lexer"} {
+	for _, n := range []string{"stack", "pointers", "readp", "lexer"} {
 		if _, ok := fld[n]; !ok {
 			s.Unk("ANCHOR", "lexer.TLexer."+n, "-", "field not found")
 			return
 		}
+	}
+	// the write position is a field of its own or simply the length of the cache
+	_, hasWP := fld["writep"]
+	wpName := "WP"
+	if !hasWP {
+		wpName = "len(STACK)"
 	}
 	mk := func(in *absint.Interp) (*absint.Cell, absint.Val) {
 		z := absint.Zero(T).(*absint.Struct)
@@ -489,7 +495,9 @@ func tlexer(p *load.Program, s *oblig.Set) {
 		f[fld["stack"]] = absint.NewVar("STACK", st.Field(fld["stack"]).Type())
 		f[fld["pointers"]] = absint.NewVar("PTRS", st.Field(fld["pointers"]).Type())
 		f[fld["readp"]] = absint.NewVar("RP", types.Typ[types.Int])
-		f[fld["writep"]] = absint.NewVar("WP", types.Typ[types.Int])
+		if hasWP {
+			f[fld["writep"]] = absint.NewVar("WP", types.Typ[types.Int])
+		}
 		f[fld["lexer"]] = absint.NewVar("LEXER", st.Field(fld["lexer"]).Type())
 		for i := 0; i < st.NumFields(); i++ {
 			switch st.Field(i).Name() {
@@ -503,7 +511,16 @@ func tlexer(p *load.Program, s *oblig.Set) {
 		c := in.NewCell(&absint.Struct{T: T, F: f}, "tl")
 		return c, &absint.Ptr{Cell: c}
 	}
-	get := func(c *absint.Cell, n string) string { return absint.Key(c.V.(*absint.Struct).F[fld[n]]) }
+	get := func(c *absint.Cell, n string) string {
+		if n == "writep" && !hasWP {
+			// derived from the cache: unchanged cache = unchanged write position
+			if absint.Key(c.V.(*absint.Struct).F[fld["stack"]]) == "STACK" {
+				return "WP"
+			}
+			return "(WP+1)"
+		}
+		return absint.Key(c.V.(*absint.Struct).F[fld[n]])
+	}
 	run := func(name string) (*absint.Cell, absint.Val, *absint.PathEnd, bool) {
 		fn := p.Method("lexer", "TLexer", name)
 		if fn == nil {
@@ -613,7 +630,7 @@ func tlexer(p *load.Program, s *oblig.Set) {
 			// those are what Snapshot/Rollback/Commit restore or deliberately keep
 			foreign := ""
 			for _, cl := range in.CondLog {
-				if !strings.Contains(cl, "(RP,(WP-1))") && !strings.Contains(cl, "lexer.Next()") && !strings.Contains(cl, "LEXER") {
+				if !strings.Contains(cl, "(RP,("+wpName+"-1))") && !strings.Contains(cl, "lexer.Next()") && !strings.Contains(cl, "LEXER") {
 					foreign = cl
 				}
 			}
@@ -632,7 +649,7 @@ func tlexer(p *load.Program, s *oblig.Set) {
 			case appended == nil && isC && b && rp == "(RP+1)" && wp == "WP":
 				seenReplay = true
 				cond := strings.Join(in.CondLog, "; ")
-				if strings.Contains(cond, "<(RP,(WP-1)) := true") || strings.Contains(cond, ">=(RP,(WP-1)) := false") {
+				if strings.Contains(cond, "<(RP,("+wpName+"-1)) := true") || strings.Contains(cond, ">=(RP,("+wpName+"-1)) := false") {
 					s.OK("X6", k+" / replay", p.Pos(nextFn.Pos()), "while readp < writep-1 the next cached token is replayed")
 				} else {
 					s.Bad("X6", k+" / replay", p.Pos(nextFn.Pos()), "replay happens under condition ["+cond+"], expected readp < writep-1")
